@@ -54,6 +54,9 @@ func c03Configs(tier string) []c03cfg {
 				}
 			}
 			cfgs = append(cfgs, c03cfg{cmd: cmd, targets: 2, inflight: []string{"early", "upgrade"}, late: []string{"long"}})
+			// requests still running at the deadline on several targets at once (round robin spreads them)
+			cfgs = append(cfgs, c03cfg{cmd: cmd, targets: 2, inflight: []string{"never", "never"}})
+			cfgs = append(cfgs, c03cfg{cmd: cmd, targets: 2, inflight: []string{"after", "never", "early"}})
 		}
 		for _, cmd := range []string{"redeploy", "pause", "stop"} {
 			cfgs = append(cfgs, c03cfg{cmd: cmd, targets: 1, inflight: []string{"never", "upgrade"}, sick: true})
